@@ -171,17 +171,10 @@ Theorem C15_tmp_removed_all_exits_given :
 Proof. exact tmp_removed_all_exits_given. Qed.
 Print Assumptions C15_tmp_removed_all_exits_given.
 
-Theorem C15_tmp_removed_all_exits_partial :
-  forall sc : script,
-  sc SInputs = None -> sc SExtraParams = None -> sc SConstraints = None -> sc SBuildRepo = None ->
-  o_removed (run_cli false sc) = true.
-Proof. exact cli_tmp_removed_all_exits_partial. Qed.
-Print Assumptions C15_tmp_removed_all_exits_partial.
-
-Theorem C15_tmp_left_behind_refuted :
-  ~ (forall sc : script, o_removed (run_cli false sc) = true).
-Proof. exact cli_tmp_left_behind_refuted. Qed.
-Print Assumptions C15_tmp_left_behind_refuted.
+Theorem C15_tmp_removed_all_exits :
+  forall sc : script, o_removed (run_cli false sc) = true.
+Proof. exact cli_tmp_removed_all_exits. Qed.
+Print Assumptions C15_tmp_removed_all_exits.
 
 Theorem C15_cli_exits_table :
   run_cli false (script_of []) = mkOut Done true /\
@@ -189,23 +182,67 @@ Theorem C15_cli_exits_table :
   run_cli false (script_of [(SCompile, EMetadata)]) = mkOut (Exit 1) true /\
   run_cli false (script_of [(SCompile, ERepoInit)]) = mkOut (Exit 1) true /\
   run_cli false (script_of [(SCompile, EOther)]) = mkOut (Uncaught EOther) true /\
-  run_cli false (script_of [(SInputs, EValueError)]) = mkOut (Exit 1) false /\
-  run_cli false (script_of [(SConstraints, EValueError)]) = mkOut (Uncaught EValueError) false /\
-  run_cli false (script_of [(SExtraParams, ESystemExit)]) = mkOut (Uncaught ESystemExit) false /\
-  run_cli false (script_of [(SBuildRepo, EValueError)]) = mkOut (Uncaught EValueError) false /\
-  run_cli false (script_of [(SBuildRepo, ERepoInit)]) = mkOut (Uncaught ERepoInit) false.
+  run_cli false (script_of [(SInputs, EValueError)]) = mkOut (Exit 1) true /\
+  run_cli false (script_of [(SConstraints, EValueError)]) = mkOut (Uncaught EValueError) true /\
+  run_cli false (script_of [(SExtraParams, ESystemExit)]) = mkOut (Uncaught ESystemExit) true /\
+  run_cli false (script_of [(SBuildRepo, EValueError)]) = mkOut (Exit 1) true /\
+  run_cli false (script_of [(SBuildRepo, ERepoInit)]) = mkOut (Exit 1) true.
 Proof. exact cli_exits_table. Qed.
 Print Assumptions C15_cli_exits_table.
 
-Theorem C15_bzl_tmp_never_removed_refuted :
-  forall sc : script, o_removed (run_bzl false sc) = false.
-Proof. exact bzl_tmp_never_removed. Qed.
-Print Assumptions C15_bzl_tmp_never_removed_refuted.
+(* -- every failure the handlers cover is a diagnostic with exit status 1 (shared with C09) -------- *)
+Theorem C15_run_first_failure :
+  forall (f : flow) (user : bool) (sc : script),
+  run f user sc =
+  match first_fail sc (exec_order user (f_items f)) with
+  | Some (s, e) => run f user (script_of [(s, e)])
+  | None => run f user (script_of [])
+  end.
+Proof. exact run_first_failure. Qed.
+Print Assumptions C15_run_first_failure.
 
-Theorem C15_bzl_user_dir_deleted_refuted :
-  forall sc : script, sc SBuildRepo = None -> o_removed (run_bzl true sc) = true.
-Proof. exact bzl_user_dir_deleted. Qed.
-Print Assumptions C15_bzl_user_dir_deleted_refuted.
+Theorem C15_cli_covered_failures_exit_1 :
+  forall (user : bool) (sc : script) (s : stage) (e : ecls),
+  first_fail sc (exec_order user (f_items cli_flow)) = Some (s, e) ->
+  cli_diagnosed user s e = true ->
+  o_end (run_cli user sc) = Exit 1.
+Proof. exact cli_covered_failures_exit_1. Qed.
+Print Assumptions C15_cli_covered_failures_exit_1.
+
+Theorem C15_cli_traceback_pairs_table :
+  cli_traceback_pairs false =
+    [(SExtraParams, EValueError); (SConstraints, EValueError); (SCompile, EValueError);
+     (SWrite, EValueError); (SWrite, ERepoInit); (SWrite, ENoCandidate); (SWrite, EMetadata)] /\
+  cli_traceback_pairs true =
+    [(SExtraParams, EValueError); (SConstraints, EValueError); (SCompile, EValueError);
+     (SSetupReqs, EValueError); (SSetupReqs, ERepoInit); (SSetupReqs, ENoCandidate); (SSetupReqs, EMetadata);
+     (SWrite, EValueError); (SWrite, ERepoInit); (SWrite, ENoCandidate); (SWrite, EMetadata)].
+Proof. exact cli_traceback_pairs_table. Qed.
+Print Assumptions C15_cli_traceback_pairs_table.
+
+Theorem C15_cli_unusable_repository_is_diagnostic :
+  forall (user : bool) (sc : script) (e : ecls),
+  sc SInputs = None -> sc SExtraParams = None -> sc SConstraints = None ->
+  sc SBuildRepo = Some e -> (e = EValueError \/ e = ERepoInit) ->
+  o_end (run_cli user sc) = Exit 1.
+Proof. exact cli_unusable_repository_is_diagnostic. Qed.
+Print Assumptions C15_cli_unusable_repository_is_diagnostic.
+
+(* -- the Bazel front end ------------------------------------------------------------------------ *)
+Theorem C15_bzl_user_dir_never_deleted :
+  forall sc : script, o_removed (run_bzl true sc) = false.
+Proof. exact bzl_user_dir_never_deleted. Qed.
+Print Assumptions C15_bzl_user_dir_never_deleted.
+
+Theorem C15_bzl_tmp_removed_all_exits_partial :
+  forall sc : script, sc SBuildRepo = None -> o_removed (run_bzl false sc) = true.
+Proof. exact bzl_tmp_removed_all_exits_partial. Qed.
+Print Assumptions C15_bzl_tmp_removed_all_exits_partial.
+
+Theorem C15_bzl_tmp_left_behind_refuted :
+  ~ (forall sc : script, o_removed (run_bzl false sc) = true).
+Proof. exact bzl_tmp_left_behind_refuted. Qed.
+Print Assumptions C15_bzl_tmp_left_behind_refuted.
 
 (* -- frame and self-healing ---------------------------------------------------------------------- *)
 Theorem C15_scan_touches_only_candidate_files :
